@@ -1,3 +1,4 @@
+pub mod benc;
 pub mod common;
 pub mod props;
 pub mod space;
